@@ -206,6 +206,9 @@ type tcase struct {
 	EnvZoneA []string  `json:"envZoneA"`     // which EnvThings carry zone=a
 	FlipRev  int       `json:"flipRev"`      // function index whose active revision flips before reconcile 3 (-1 none)
 	MoveEP   int       `json:"moveEndpoint"` // function index whose active revision's endpoint changes before reconcile 3 (-1)
+	// EmptyEP: function index whose ACTIVE revision loses its endpoint before reconcile 3 (an upgrade
+	// whose new runtime is not serving yet) while the runner still holds a connection to it (-1)
+	EmptyEP int `json:"emptyEndpoint"`
 	XRSecret bool      `json:"xrSecret"`
 	CDSecret bool      `json:"cdSecret"`
 }
@@ -213,7 +216,7 @@ type tcase struct {
 func genCase(c *kit.Ctx, i int) tcase {
 	r := c.Rng("case", i)
 	names := []string{"a", "b", "c", "d"}
-	t := tcase{FlipRev: -1, MoveEP: -1, XRSecret: r.IntN(2) == 0, CDSecret: r.IntN(2) == 0}
+	t := tcase{FlipRev: -1, MoveEP: -1, EmptyEP: -1, XRSecret: r.IntN(2) == 0, CDSecret: r.IntN(2) == 0}
 	ns := 1 + r.IntN(3)
 	for s := 0; s < ns; s++ {
 		p := progSpec{}
@@ -725,6 +728,38 @@ func (w *worker) run(i int, name string) {
 		c.Count("fatal_tail_reconciles", 1)
 		// back to a healthy pipeline
 		_, _, _ = env.Reconcile("xr1")
+	}
+	// the active revision of fn-0 loses its endpoint (its new runtime is not serving yet) while the
+	// runner still holds a connection from earlier reconciles: no runtime may be called for it
+	if len(t.Steps) > 0 {
+		for _, rn := range []string{"fn-0-a-old", "fn-0-b-new"} {
+			ro := world.GetObj(sim.Key{Group: "pkg.crossplane.io", Kind: "FunctionRevision", Name: rn})
+			if sim.Str(ro, "spec", "desiredState") != "Active" {
+				continue
+			}
+			ep := sim.Str(ro, "status", "endpoint")
+			u := &unstructured.Unstructured{Object: ro}
+			unstructured.RemoveNestedField(u.Object, "status", "endpoint")
+			if err := world.Client("pkg").Status().Update(ctx, u); err != nil {
+				panic(err)
+			}
+			w.drain()
+			_, rerr, _ := env.Reconcile("xr1")
+			n := len(w.beta[0].Take())
+			for k := 0; k < 3; k++ {
+				n += len(w.v1[0][k].Take())
+			}
+			if n > 0 {
+				fail("request-sent-to-non-active-revision:active-revision-has-no-endpoint", fmt.Sprintf("the active revision %s of fn-0 has no endpoint, yet %d request(s) reached a runtime of fn-0 (reconcile error: %v)", rn, n, rerr), t)
+			}
+			c.Count("endpointless_active_revision_reconciles", 1)
+			u = &unstructured.Unstructured{Object: world.GetObj(sim.Key{Group: "pkg.crossplane.io", Kind: "FunctionRevision", Name: rn})}
+			_ = unstructured.SetNestedField(u.Object, ep, "status", "endpoint")
+			if err := world.Client("pkg").Status().Update(ctx, u); err != nil {
+				panic(err)
+			}
+			_, _, _ = env.Reconcile("xr1")
+		}
 	}
 	// uninstalling a function closes its connection
 	if len(t.Steps) > 0 {
